@@ -45,7 +45,7 @@ func RunSelftest(c *Ctx) error {
 	var ejobs []*ejob
 	for k := 0; k < 12; k++ {
 		gc := cases[r.Intn(len(cases))]
-		p := simrt.Plan{Map: simrt.MapPlan{Policy: []string{"shuffle", "reverse", "rotate"}[r.Intn(3)], Seed: r.U64()}, Clock: 1700000000, Pid: 99, TickBudget: 5e8}
+		p := simrt.Plan{Map: simrt.MapPlan{Policy: []string{"shuffle", "reverse", "rotate"}[r.Intn(3)], Seed: r.U64()}, Clock: 1700000000, Pid: 99, TickBudget: 4e9}
 		if k%3 == 0 {
 			p.Faults = []simrt.Fault{{Op: 5 + r.Intn(12), Kind: []string{"err", "short", "torn"}[r.Intn(3)], Errno: "ENOSPC", Keep: -2}}
 		}
